@@ -1049,6 +1049,70 @@ def tomlstring_violation(tup, name, s):
 
 
 # ------------------------------------------------------------------------------ entry points
+def same_file_twice(ctx, cov):
+    """Several TupimageTerminal objects built in ONE process from the same, unmodified configuration file (by path, by
+    TUPIMAGE_CONFIG, from the XDG location): what a higher layer gave an earlier terminal (keyword, environment variable that
+    is gone by now, assignment on the live object) is no business of a later one — it reports the file's values with the file
+    as provenance, and the earlier one keeps its own."""
+    work = ctx.work
+
+    def child():
+        common.scrub_process_env()
+        os.environ.pop("TUPIMAGE_CONFIG", None)
+        os.environ["HOME"] = work
+        os.environ["XDG_STATE_HOME"] = os.path.join(work, "state")
+        os.environ["XDG_CONFIG_HOME"] = os.path.join(work, "config")
+        cfgdir = os.path.join(work, "config", "tupimage")
+        os.makedirs(cfgdir, exist_ok=True)
+        import tupimage
+        tty = open("/dev/tty", "rb", buffering=0)
+        res = []
+        for route in ("arg", "env", "xdg"):
+            path = os.path.join(cfgdir, "config.toml") if route == "xdg" else os.path.join(work, f"twice-{route}.toml")
+            with open(path, "w") as f:
+                f.write("max_cols = 50\nfewer_diacritics = true\n")
+            os.environ.pop("TUPIMAGE_CONFIG", None)
+            kw = {}
+            if route == "arg":
+                kw["config"] = path
+            elif route == "env":
+                os.environ["TUPIMAGE_CONFIG"] = path
+
+            def mk(**more):
+                return tupimage.TupimageTerminal(out_command=common.RecStream(), out_display=common.RecStream(), in_response=tty, id_database=os.path.join(work, "twice.db"), **kw, **more)
+            os.environ["TUPIMAGE_SCALE"] = "2.5"
+            t1 = mk(max_cols=10)
+            del os.environ["TUPIMAGE_SCALE"]
+            t1.max_rows = 7
+            t2 = mk()
+            snap2 = {n: [canon(getattr(t2._config, n)), t2._config.get_provenance(n)] for n in ("max_cols", "scale", "max_rows", "fewer_diacritics")}
+            t2.max_cols = 77
+            snap1 = {n: [canon(getattr(t1._config, n)), t1._config.get_provenance(n)] for n in ("max_cols", "scale", "max_rows")}
+            res.append({"route": route, "path": os.path.abspath(path), "second": snap2, "first_after": snap1})
+            if route == "xdg":
+                os.remove(path)
+        return res
+
+    r = common.in_pty(child, timeout=120)
+    if "ok" not in r:
+        ctx.corr_breaks.append({"what": "same-file-twice scenarios failed in the pty sandbox", "error": {k: v for k, v in r.items() if k != "tty"}})
+        return
+    for rec in r["ok"]:
+        cov.add({"same_file_twice": rec["route"]}, klass="ctor/same-file-twice/" + rec["route"])
+        s2, s1 = rec["second"], rec["first_after"]
+        problems = []
+        if s2["max_cols"][0] != ["int", "50"] or not (s2["max_cols"][1].startswith("set from file ") and s2["max_cols"][1].endswith(rec["path"])):
+            problems.append(f"second terminal: max_cols = {s2['max_cols']} (the file says 50)")
+        if s2["scale"][1] != "default" or s2["max_rows"][1] != "default":
+            problems.append(f"second terminal: scale = {s2['scale']}, max_rows = {s2['max_rows']} (no layer of the second terminal sets them)")
+        if s1["max_cols"][0] != ["int", "10"] or s1["max_rows"][0] != ["int", "7"] or s1["scale"][1] != "set via TUPIMAGE_SCALE":
+            problems.append(f"first terminal afterwards: {s1} (its own layers said max_cols=10, TUPIMAGE_SCALE=2.5, max_rows assigned 7)")
+        if problems:
+            ctx.violations.append({"signature": {"class": "precedence", "layer": "another terminal built from the same file", "value_ok": False, "provenance_ok": False},
+                                   "what": f"two terminals built in one process from the same configuration file ({rec['route']} route): " + "; ".join(problems),
+                                   "case": {"kind": "same-file-twice", "route": rec["route"]}})
+
+
 def run(ctx, model):
     cov = common.Coverage("case = (option(s), raw value per layer, labels, file route) for constructor runs, (option, raw value) for "
                           "validate_and_normalize, text for lexers; non-trivial = at least one layer sets something / the text parses; distinct by hash")
@@ -1065,6 +1129,7 @@ def run(ctx, model):
     check_toml_strings(ctx, cov, tup)
     n = check_constructor(ctx, cov, model, tup)
     cov.bump("constructor-cases", n)
+    same_file_twice(ctx, cov)
     rank_violations(ctx)
     return cov
 
@@ -1124,6 +1189,9 @@ def replay(ctx, model, rec):
     if kind == "tomlstring":
         v = tomlstring_violation(tup, case["option"], case["value"])
         return {"violates": v is not None, "violations": [v["what"]] if v else []}
+    if kind == "same-file-twice":
+        same_file_twice(sub, common.Coverage("replay"))
+        return {"violates": bool(sub.violations), "violations": [v["what"] for v in sub.violations][:3]}
     if kind == "layers":
         c = {"option": None, "klass": "replay", "multi": case["multi"], "labels": case["labels"], "route": case["route"]}
         out = run_constructor_cases(sub, [c])
